@@ -32,16 +32,19 @@ func init() {
 		Explanation: "Structural necessary conditions of C12 (DESIGN.md §3/C12), decided over every field, index expression, call site and path of the wire codecs: " +
 			"R1 every field of data.Point and data.NodeEdge is the only source of exactly one field of its protobuf message in the encoder, is read back from that same field by the decoder, " +
 			"and the two transforms are inverse (identity, width-preserving conversions, nanosecond-keeping time wrappers, element-wise nested codecs), for all codec pairs found by signature in package data; " +
+			"a nested element reaches the other side exactly as its own codec made it: no statement of the enclosing codec, or of a helper it converts each element with, stores a value that does not come from the element into a field the element codec carries (found by the type of the written field; a helper without such writes that only hands its element to the element codec stands for that codec); " +
 			"R2 every pointer-typed message field read from a decoded message is nil-checked or handed only to callees that accept nil before it is dereferenced; " +
 			"R3 every index/slice of the result of strings.Split(<nats.Msg>.Subject, …) anywhere in the module and of a []byte parameter in package data is implied by the length guards on every path (interval analysis of len, exact: proof or concrete counterexample); " +
+			"a bound taken from a search over the parsed input (bytes/strings Index, IndexByte, IndexAny, LastIndex…, IndexRune) has the value set {-1} ∪ [0, len(haystack)-1]: the not-found result must be excluded by the guards on the path (value-set analysis of the result variable; `if i < 0 { i = len(x) }` is understood), violated when -1 reaches a bound that is out of range for it and no condition on the content was passed; " +
 			"R4 on every path on which proto.Unmarshal of a point/node message failed, or its error was not examined, the decoder returns a non-nil error. " +
-			"Not decided: protobuf/ptypes library behaviour, UTF-8 validity of strings, float bit-exactness inside protobuf, int<->int32 range of Tombstone.",
+			"Not decided: protobuf/ptypes library behaviour, UTF-8 validity of strings, float bit-exactness inside protobuf, int<->int32 range of Tombstone; element fields rewritten from element data; search results guarded through conditions on the content itself; parsers that do not go through strings.Split or a []byte parameter of package data.",
 		Assumptions: []string{
 			"protobuf library: Marshal/Unmarshal are inverse on every field of the generated messages; Unmarshal never stores nil elements in repeated message fields",
 			"ptypes.TimestampProto/Timestamp and Time.UnixNano/time.Unix(0,ns) are inverse for times representable on the wire; ptypes.Timestamp and (*Timestamp).AsTime accept a nil timestamp",
 			"Tombstone (int) fits int32; NodeEdge.Hash uint32<->int32 is bit-preserving",
 			"strings.Split with a non-empty separator returns at least one element",
 			"conditions that do not mention the length of the parsed slice are independent of it (both edges feasible for every length)",
+			"bytes/strings search functions return -1 or the position of a match inside their first argument; for every length there is an input without the byte, the characters, or the non-empty constant sequence looked for",
 		},
 		Run: runC12,
 	})
@@ -353,6 +356,28 @@ func c12RunBounds(c *kit.Ctx, r *kit.Rule, cons *c12Consumer, role string) {
 	lf := &kit.LenFlow{F: f, X: cons.x, Def: cons.def, MinLen: cons.minLen, Src: cons.src}
 	lf.Run()
 	keys := c12SiteKeys(f, role, lf.Sites)
+	// bounds that come from a search over the input (bytes.IndexByte …): the
+	// length engine cannot express them, the search clause decides them
+	searched, extra := c12SearchBounds(cons, lf)
+	report := func(o *kit.Ob, v *c12SVerdict) {
+		switch v.status {
+		case "ok":
+			o.OK("%s", v.msg)
+		case "violation":
+			o.Violation("%s", v.msg)
+		default:
+			o.Undecided("%s", v.msg)
+		}
+	}
+	seen := map[string]int{}
+	for _, e := range extra {
+		k := fmt.Sprintf("%s (derived value) %s", role, f.Str(e))
+		seen[k]++
+		if n := seen[k]; n > 1 {
+			k = fmt.Sprintf("%s #%d", k, n)
+		}
+		report(r.Ob(f, e, k, obl), searched[e])
+	}
 	if len(lf.Sites) == 0 {
 		// a split result that is only measured or ranged over has no obligation
 		c.Note("R3: %s.%s binds %s but never indexes it", f.PkgRel(), f.Name, cons.x.Name())
@@ -360,6 +385,10 @@ func c12RunBounds(c *kit.Ctx, r *kit.Rule, cons *c12Consumer, role string) {
 	}
 	for _, st := range lf.Sites {
 		o := r.Ob(f, st.Expr, keys[st], obl)
+		if v := searched[st.Expr]; v != nil {
+			report(o, v)
+			continue
+		}
 		switch st.Verdict {
 		case "ok":
 			o.OK("%s: %s", f.Str(st.Expr), st.By)
